@@ -322,6 +322,14 @@ func runC18Case(c c18Case) (string, []explore.Violation) {
 	}
 	// drop removes this database's local data and nothing else
 	if strings.Contains(c.Inject, "drop") {
+		// ... and whatever was in flight when it happened, the dropped store does not go on serving what was
+		// written and acknowledged before the drop (p1, p2; the write in flight across the drop and writes issued
+		// on the dropped object afterwards are not judged)
+		// A Load that was in flight across the drop is not judged either: it had read the cached heads before the
+		// drop and joins what it fetched afterwards; the statement does not order a Load against a concurrent Drop.
+		if v := viewAny(s); !strings.HasPrefix(c.Setup, "load@") && (strings.Contains(v, "p1") || strings.Contains(v, "p2")) {
+			bad("dropped-store-still-serves-earlier-data:"+strings.SplitN(c.Setup, "@", 2)[0], fmt.Sprintf("view after drop: %q", v))
+		}
 		for _, sp := range spacesBefore() {
 			if strings.HasSuffix(sp, "/db") {
 				bad("drop-left-local-data", "cache space "+sp+" still exists")
@@ -423,7 +431,7 @@ var _ ipfslog.Entry
 func init() {
 	explore.Register(&explore.CheckDef{
 		ID: "C18", Level: "exploration",
-		Rule:   "cross product, each case on a fresh world: store type x moment {idle; in-flight write parked at each of 6 points (begin, block write, after append, head put, after persist, after view update); in-flight replication parked at each of 5 points (fetch, before slot, after dequeue, before done, before load-complete); in-flight Load parked in a fetch} x injection {store.Close, store.Close twice, orbitdb.Close, orbitdb.Close twice, store.Drop, Close then Drop, Close + reopen the same database + Close of the stale handle + orbitdb.Close} x {alone, with a sibling database on the same instance, with a sibling created through the same options value}. After the injection everything parked is released and every operation is issued once on the closed object. Oracle at quiescence (state-based, no timeouts): every call has returned, no panic, the go-orbit-db goroutines still alive are exactly those present before the store was opened (none after orbitdb.Close), after the instance is closed at the end none at all; reopening and loading yields all acknowledged entries, Drop removed this database's cache and left the sibling untouched. Non-trivial = cases with a goroutine parked mid-operation at the injection.",
+		Rule:   "cross product, each case on a fresh world: store type x moment {idle; in-flight write parked at each of 6 points (begin, block write, after append, head put, after persist, after view update); in-flight replication parked at each of 5 points (fetch, before slot, after dequeue, before done, before load-complete); in-flight Load parked in a fetch} x injection {store.Close, store.Close twice, orbitdb.Close, orbitdb.Close twice, store.Drop, Close then Drop, Close + reopen the same database + Close of the stale handle + orbitdb.Close} x {alone, with a sibling database on the same instance, with a sibling created through the same options value}. After the injection everything parked is released and every operation is issued once on the closed object. Oracle at quiescence (state-based, no timeouts): every call has returned, no panic, the go-orbit-db goroutines still alive are exactly those present before the store was opened (none after orbitdb.Close), after the instance is closed at the end none at all; reopening and loading yields all acknowledged entries, Drop removed this database's cache, left the sibling untouched and the dropped store no longer serves what was acknowledged before the drop. Non-trivial = cases with a goroutine parked mid-operation at the injection.",
 		Units:  func(tier string) []explore.Unit { return explore.ChunkUnits("c18-"+tier, 16) },
 		Budget: func(tier string) float64 { return 400 },
 		RunUnit: func(c *explore.Ctx) {
